@@ -316,6 +316,20 @@ def main_parts(tree):
     return int(ok), int(bad), int(r.args[0].value)
 
 
+def setup_parts(tree):
+    """setup(): the solver filter over the non-reverting setUp() paths keeps every path not answered `unsat`"""
+    fn = find_def(tree.body, "setup")
+    want_if = _norm("if solver_output.result != unsat:\n    setup_exs.append(ex)\n    if len(setup_exs) > 1:\n        break")
+    hits = [n for n in ast.walk(fn) if isinstance(n, ast.If) and u(n) == want_if]
+    need(len(hits) == 1, "setup: `if solver_output.result != unsat: setup_exs.append(ex); if len(setup_exs) > 1: break` not found")
+    fors = [n for n in ast.walk(fn) if isinstance(n, ast.For) and any(h is c for h in hits for c in n.body)]
+    need(len(fors) == 1 and u(fors[0].iter) == "enumerate(setup_exs_no_error)"
+         and any(u(c) == "solver_output = solve_low_level(path_ctx)" for c in fors[0].body), "setup: filter loop shape")
+    srcs = [u(n) for n in ast.walk(fn) if isinstance(n, ast.Raise)]
+    need(any("No successful path found" in x for x in srcs) and any("Multiple paths were found" in x for x in srcs),
+         "setup: 0 / >1 remaining paths must raise")
+
+
 def run_contract_parts(tree):
     fn = find_def(tree.body, "run_contract")
     trys = [s for s in strip_doc(fn.body) if isinstance(s, ast.Try)]
@@ -444,6 +458,7 @@ def generate() -> str:
     exc_code = run_tests_parts(mt)
     ok, bad, none = main_parts(mt)
     run_contract_parts(mt)
+    setup_parts(mt)
     dispatch, default, needle, timeout_res, exit_timedout = solve_parts(st)
     names = {n for n, _ in codes}
     for _, n in vchain:
